@@ -196,10 +196,14 @@ static int run_case(const std::vector<long long>& v)
     }
     host->add_actor("a" + std::to_string(a + 1), [prog] { body(prog); });
   }
-  static bool deadlock = false;
-  sg4::Engine::on_deadlock_cb([] { deadlock = true; });
+  // At a deadlock every remaining actor is blocked for ever: what was observed is final.  Leave at once (the engine
+  // would now kill the blocked actors, which is outside these properties).
+  sg4::Engine::on_deadlock_cb([] {
+    ev({9, 2, 0, 0, 0, now()});
+    _exit(0);
+  });
   e.run();
-  ev({9, deadlock ? 2 : 0, 0, 0, 0, now()});
+  ev({9, 0, 0, 0, 0, now()});
   return 0;
 }
 
